@@ -57,6 +57,10 @@ def run(tier, seed):
     for s in pick(hdr) + pick(pt):
         for cut in ((0, 1, 13) if thorough else (0, rng.choice([1, 5, 13]))):
             scen.append({**s, "cut": cut, "via_read_half": False})
+    # a malformed frame travelling between the fragments of a sequence costs its own error and nothing else: always taken
+    between = [x for x in hdr if any(h[0] in ("frag2i", "frag3i") and j + 1 < len(x["hist"]) and x["hist"][j + 1][0].startswith("junk") for j, h in enumerate(x["hist"]))]
+    for s in (between if thorough else rng.sample(between, min(len(between), 10))):
+        scen.append({**s, "cut": 0, "via_read_half": False})
     # the node's own read loop (pass-through frames only)
     for s in pick(pt)[: (200 if thorough else 30)]:
         scen.append({**s, "cut": rng.choice([0, 3]), "via_read_half": True})
@@ -130,7 +134,7 @@ def run(tier, seed):
                 if g["k"] != "err":
                     v.violation("an undecodable frame did not yield an error for that frame", {**case, "frame": e["kind"], "got": E.short(g, 200)})
                 continue
-            frag = e["kind"] in ("frag2", "frag3")
+            frag = e["kind"] in ("frag2", "frag3", "frag2i", "frag3i")
             if g["k"] != "msg":
                 v.classify("a well-formed message from the peer was not delivered", {**case, "form": e["kind"], "got": g}, ["C06-fragments"] if frag else [])
                 continue
